@@ -377,6 +377,14 @@ def check_C12(ctx):
     summ = harness(ctx, ["flow", "replay", "--prop", "C12"], cases_file=f, name="flow-c12", timeout=3600)
     report_mismatches(ctx, summ, "control points of a file with interleaved sections differ from the SectionFlow specification")
     os.remove(f)
+    for salt in ([2, 1, 0] if thorough else [0]):
+        f = flow_cases(ctx, 4, rand=salt)
+        summ = harness(ctx, ["flow", "replay", "--prop", "all"], cases_file=f, name="flow-rand", timeout=3600)
+        summ["mismatches"] = [m for m in summ.get("mismatches", []) if not str(m.get("sig", "")).startswith(("c07:", "flow:objects"))]
+        summ["mismatch_count"] = len(summ["mismatches"])
+        summ["mismatch_sigs"] = {k: v for k, v in summ.get("mismatch_sigs", {}).items() if not k.startswith(("c07:", "flow:objects"))}
+        report_mismatches(ctx, summ, "control points / [General] values of a file with interleaved sections differ from SectionFlow (randomised values %d)" % salt)
+        os.remove(f)
     summ = harness(ctx, ["timing", "shape", "--runs", "3000" if thorough else "400"], name="timing-shape", timeout=3600)
     report_mismatches(ctx, summ, "a control-point list is not strictly increasing in time / violates a clamp")
     tcfg = dict(spec="TrSpec", invariants=["TrShape"], postcondition="Accepted",
@@ -1297,11 +1305,46 @@ def check_C15(ctx):
                   "bundled and generated files; non-trivial = distinct cases with a slider or a break")
 
 
-def flow_cases(ctx, maxitems, emit=True, expect_violation=False, simulate=None):
+def rand_flow_module(ctx, salt=0):
+    """Randomised VALUES for SectionFlow.tla: the two modes, the [General] bank and volume, the banks / volumes / custom
+    indices of the timing lines (times and beat lengths stay on the exactness lattice)."""
+    import random
+    rnd = random.Random(ctx.seed * 7703 + 13 + salt * 982451653)
+    modes = rnd.sample(["osu", "taiko", "catch", "mania"], 2)
+    b = lambda: rnd.choice([0, 1, 2, 3, rnd.randint(-2, 7)])
+    v = lambda: rnd.choice([100, 60, 0, rnd.randint(-50, 250)])
+    c = lambda: rnd.choice([0, 1, 2, rnd.randint(-3, 300)])
+    text = ("------------------------------ MODULE RandFlow ------------------------------\n"
+            "(* generated by bin/plans.py (rand_flow_module) from VERIF_SEED = %d - do not edit.  Randomised values for\n"
+            "   SectionFlow: the model is the oracle. *)\n"
+            "EXTENDS SectionFlow\n\n"
+            "RandFlowLines ==\n"
+            "    << [Base(0) EXCEPT !.bl = 400, !.nf = 2],\n"
+            "       [Base(2000) EXCEPT !.bl = 200, !.nf = 5, !.bank = %d, !.custom = %d],\n"
+            "       [Base(2000) EXCEPT !.bl = -50, !.unin = FALSE, !.bank = %d, !.vol = %d, !.custom = %d],\n"
+            "       [Base(2810) EXCEPT !.bl = 400, !.nf = %d, !.bank = %d] >>\n"
+            "RandItems ==\n"
+            "    << It(\"mode\", \"%s\"), It(\"mode\", \"%s\"), It(\"bank\", %d), It(\"vol\", %d), It(\"sm\", 2000), It(\"brk\", <<100, 999>>),\n"
+            "       It(\"tl\", 1), It(\"tl\", 2), It(\"tl\", 3), It(\"tl\", 4), It(\"obj\", 1), It(\"obj\", 2), It(\"obj\", 3) >>\n"
+            "=============================================================================\n") % (
+                ctx.seed, b(), c(), b(), v(), c(), rnd.choice([2, 4]), b(), modes[0], modes[1], rnd.randint(0, 3), v())
+    path = os.path.join(SPEC, "RandFlow.tla")
+    old = open(path).read() if os.path.exists(path) else None
+    if old != text:
+        with open(path, "w") as fh:
+            fh.write(text)
+    sany(ctx, "RandFlow")
+
+
+def flow_cases(ctx, maxitems, emit=True, expect_violation=False, simulate=None, rand=None):
     """SectionFlow.tla: every sequence of section records (any section order, sections repeated) up to the bound,
     or `simulate` random behaviours of exactly `maxitems` records."""
     sany(ctx, "SectionFlow")
-    name = "%s_SectionFlow_%d%s" % ("Sim" if simulate else "MC", maxitems, "_neg" if expect_violation else "")
+    module = "SectionFlow"
+    if rand is not None:
+        rand_flow_module(ctx, rand)
+        module = "RandFlow"
+    name = "%s_%s_%d%s" % ("Sim" if simulate else "MC", module, maxitems, "_neg" if expect_violation else "")
     cases = os.path.join(ctx.work, name + ".ndjson")
     body = cases + ".body"
     # (simulated long behaviours are generated for the replay; the invariants are settled by the exhaustive runs)
@@ -1310,7 +1353,9 @@ def flow_cases(ctx, maxitems, emit=True, expect_violation=False, simulate=None):
                               TimesSet='"small"', EmitPost="FALSE", Profile='"base"', SortedBreakEnds="TRUE", MaxItems=str(maxitems),
                               MinItems=str(maxitems if simulate else 0),
                               EmitFlow="TRUE" if emit and not expect_violation else "FALSE"))
-    r = tlc(ctx, "SectionFlow", name, cfg, workers=1 if simulate else 14, timeout=3000, cases_file=None if expect_violation or not emit else body,
+    if rand is not None:
+        cfg["constants"].update(FlowLines="<-RandFlowLines", Items="<-RandItems")
+    r = tlc(ctx, module, name, cfg, workers=1 if simulate else 14, timeout=3000, cases_file=None if expect_violation or not emit else body,
             expect_violation=expect_violation, count=not expect_violation, simulate=simulate, depth=maxitems + 3)
     if expect_violation or not emit:
         return None
